@@ -329,6 +329,13 @@ func c12Gen(t *rapid.T) c12Case {
 	if rapid.Bool().Draw(t, "smalloff") {
 		c.DX, c.DY = max(-M-lo.X, min(M-hi.X, c.DX%7)), max(-M-lo.Y, min(M-hi.Y, c.DY%7))
 	}
+	if c.Pair.EA.Scale == 0 && rapid.IntRange(0, 5).Draw(t, "faroff") == 0 {
+		// far from the origin, still exactly representable: the predicates only ever need coordinate
+		// differences, so absolute ordinates near 2^52 must not change an answer
+		off := []int64{1 << 30, 1 << 40, 1 << 50, (1 << 52) - (1 << 21), -(1 << 30), -(1 << 45), -((1 << 52) - (1 << 21)), 0}
+		c.DX = rapid.SampledFrom(off).Draw(t, "fardx")
+		c.DY = rapid.SampledFrom(off).Draw(t, "fardy")
+	}
 	c.K = rapid.IntRange(-12, 12).Draw(t, "k")
 	if rapid.IntRange(0, 3).Draw(t, "bigk") == 0 {
 		c.K = rapid.SampledFrom([]int{-60, -40, -30, -24, -20, 20, 30, 40, 60}).Draw(t, "kfar")
